@@ -4,6 +4,7 @@
    spelled out here and proved from the lemma of the same name under `Peppi/` (generated once by
    `bin/mkprops.py`, then kept as source).  What is proved and what is partial: DESIGN.md §4. -/
 import Peppi.RollbacksProof
+import Peppi.RollbacksUnique
 set_option linter.unusedVariables false
 namespace Peppi.Props.C15
 
@@ -35,5 +36,24 @@ theorem C15_last_keeps_last (ids : List Int) (h : ∀ x ∈ ids, FIRST_INDEX ≤
     (hlast : ∀ j, ∀ hj : j < ids.length, i < j → ids[j] ≠ ids[i]) :
     ∃ m, rollbacks .exceptLast ids = .ok m ∧ m[i]? = some false :=
   _root_.Peppi.C15_last_keeps_last ids h i hi hlast
+
+/- from `Peppi.RollbacksUnique` -/
+theorem C15_first_unique (ids : List Int) (h : ∀ x ∈ ids, FIRST_INDEX ≤ x) :
+    ∃ m, rollbacks .exceptFirst ids = .ok m ∧ m.length = ids.length ∧
+      ∀ x ∈ ids, ∃ i, (∃ hi : i < ids.length, ids[i] = x ∧ m[i]? = some false) ∧
+        ∀ k, ∀ hk : k < ids.length, ids[k] = x → m[k]? = some false → k = i :=
+  _root_.Peppi.C15_first_unique ids h
+
+/- from `Peppi.RollbacksUnique` -/
+theorem C15_last_unique (ids : List Int) (h : ∀ x ∈ ids, FIRST_INDEX ≤ x) :
+    ∃ m, rollbacks .exceptLast ids = .ok m ∧ m.length = ids.length ∧
+      ∀ x ∈ ids, ∃ i, (∃ hi : i < ids.length, ids[i] = x ∧ m[i]? = some false) ∧
+        ∀ k, ∀ hk : k < ids.length, ids[k] = x → m[k]? = some false → k = i :=
+  _root_.Peppi.C15_last_unique ids h
+
+/- from `Peppi.RollbacksUnique` -/
+theorem C15_last_nodup (ids : List Int) (h : ∀ x ∈ ids, FIRST_INDEX ≤ x) (hnd : ids.Nodup) :
+    ∃ m, rollbacks .exceptLast ids = .ok m ∧ m.length = ids.length ∧ ∀ b ∈ m, b = false :=
+  _root_.Peppi.C15_last_nodup ids h hnd
 
 end Peppi.Props.C15
